@@ -17,7 +17,7 @@ func init() {
 		ID: "C20", Fn: c20, Resume: true, Level: "fault_enumeration",
 		Rule:        "round trip: a book built with the cache on and a new Book loading that cache are compared entry by entry (keys, counters, successor lists as sequences); crash points: for cache files of books of several sizes EVERY prefix length 0..len-1 (every byte for files up to 16 KB, every byte of the first and last 4 KB plus a stride in between for larger ones) is installed as the cache and Initialize(useCache=true, recreate=false) is run under a watchdog; the cache path being a directory or a dangling symlink (undecodable and not rewritable); corruptions: bit flips, overwritten ranges, zero fill, appended garbage, each first classified by decoding the same bytes with encoding/gob in the harness (only undecodable variants must yield the source book; decodable ones must merely not crash or hang); repeated initialisation in the same process after a failed load, and re-initialisation (recreateCache) of a Book object that was served from the cache; a hang is a violation only if the in-process goroutine dump proves a deadlock; after a proven hang the process is restarted after that case; distinct = distinct (book, fault) cases",
 		Assumptions: []string{"the source-built book of the same file is the reference (its correctness is C19's subject)", "successor order of a rebuilt book may differ (parallel build): compared as sets there, as sequences for the cache round trip"},
-		Required:    []string{"books", "roundtrips", "crash_points", "crash_points_first_4k", "corruptions_undecodable", "corruptions_decodable", "repeated_init_after_failed_load", "missing_cache", "empty_cache", "reinit_after_cache_load", "unusable_cache_path"},
+		Required:    []string{"books", "roundtrips", "crash_points", "crash_points_first_4k", "corruptions_undecodable", "corruptions_decodable", "repeated_init_after_failed_load", "missing_cache", "empty_cache", "reinit_after_cache_load", "unusable_cache_path", "reset_and_init_again_over_damaged_cache"},
 		MinEvals:    1000,
 		TimeoutQ:    20 * 60e9,
 	})
@@ -233,6 +233,21 @@ func c20(c *Ctx) {
 				if d := refSnap.equal(snapBook(b, want), true); d != "" {
 					rep.Viol("cache:"+kind+":book-differs", fmt.Sprintf("cache damaged (%s at byte %d of %d): resulting book differs from the source-built book: %s", kind, off, len(img), d),
 						map[string]interface{}{"book": bi, "offset": off, "kind": kind})
+				}
+			}
+			// the same Book object, reset and initialised again over the same damaged cache
+			if off%5 == 0 {
+				if err := os.WriteFile(cachePath, data, 0o644); err == nil {
+					b.Reset()
+					err, pm, hung, sig, to := initWithWatchdog(b, dir, file, 15*time.Second)
+					rep.Eval(1)
+					rep.Inc("reset_and_init_again_over_damaged_cache")
+					if c20outcome(rep, kind+":reset-reinit", bi, off, err, pm, hung, sig, to) && mustEqual {
+						if d := refSnap.equal(snapBook(b, want), true); d != "" {
+							rep.Viol("cache:"+kind+":reset-reinit:book-differs", fmt.Sprintf("cache damaged (%s at byte %d of %d): after Reset() and a second Initialize on the same Book the book differs from the source-built book: %s", kind, off, len(img), d),
+								map[string]interface{}{"book": bi, "offset": off, "kind": kind})
+						}
+					}
 				}
 			}
 			// repeated initialisation in the same process must still work
